@@ -1,10 +1,14 @@
 package c13
 
 import (
+	"encoding/binary"
 	"fmt"
+	"hash/fnv"
 	"math/bits"
 	"sort"
 	"testing"
+
+	"github.com/tuneinsight/lattigo/v6/core/rlwe"
 
 	"verif/internal/h"
 
@@ -292,4 +296,19 @@ func guarded[T any](f func() (T, error)) (out T, err error, panicMsg string) {
 	}()
 	out, err = f()
 	return
+}
+
+// ctHash fingerprints a ciphertext (all coefficients, degree, level, scale, flags): used to assert that inputs are left intact.
+func ctHash(ct *rlwe.Ciphertext) string {
+	hh := fnv.New64a()
+	var b [8]byte
+	for _, p := range ct.Value {
+		for _, limb := range p.Coeffs {
+			for _, v := range limb {
+				binary.LittleEndian.PutUint64(b[:], v)
+				hh.Write(b[:])
+			}
+		}
+	}
+	return fmt.Sprintf("%x|deg=%d|lvl=%d|scale=%s|ntt=%v|mont=%v|dims=%v|batched=%v", hh.Sum64(), ct.Degree(), ct.Level(), ct.Scale.Value.Text('p', 0), ct.IsNTT, ct.IsMontgomery, ct.LogDimensions, ct.IsBatched)
 }
